@@ -10,13 +10,18 @@ import ast
 import errno as _errno
 import z3
 from pyvc.contracts import *
-from pyvc.engine import LoopSpec, Out, Record, Prove
+from pyvc.engine import LoopSpec, Out, Record, Prove, wrap_const, zt
 from pyvc.values import *
 from pyvc.builtins_model import be, unbe
 from pyvc import extract
 from .common import *
 
 PROP = 'C14'
+
+# protective: a query that makes z3 allocate without bound (seen on a mutant of send_packet: 49 GB) must end as
+# `unknown`, not take the machine down (hard cap in MB, inherited by the solver worker processes)
+Z3_MEM_CAP_MB = 6000
+z3.set_param('memory_max_size', Z3_MEM_CAP_MB)
 
 ASSUMPTIONS = []
 
@@ -173,7 +178,6 @@ def srv_setup(ex, st):
     st.env['os'] = VTag('class:os')
 
 
-from pyvc.engine import wrap_const   # noqa: E402
 
 
 SHAPE_IDS = {k: i for i, k in enumerate(sorted(RESULT_SHAPES))}
@@ -322,17 +326,9 @@ def encode_failed(c):
     return any(x['exc'] is not None for x in c.calls() if x['key'] not in ('handler', 'self.send_packet'))
 
 
-def srv_escapes(c):
-    """the only exceptions that may leave _process_packet: a BaseException of the handler that is not an Exception
-    (task cancellation, interpreter exit), or the failure of the one send itself (connection gone)"""
-    return c.raised is not None
-
-
 def exactly_one_reply(c):
-    n = len(srv_sends(c))
-    if c.raised is None:
-        return z3.BoolVal(n == 1)
-    return z3.BoolVal(True)
+    """every request that is not abandoned by a propagating BaseException is answered exactly once"""
+    return z3.BoolVal(len(srv_sends(c)) == 1)
 
 
 def reply_id(c):
@@ -343,12 +339,6 @@ def reply_id(c):
             conj.append(a[1].z == c.arg('pktid'))
             conj.append(a[2].z == be4(c.arg('pktid')))
     return z3.And(conj) if conj else z3.BoolVal(True)
-
-
-def request_kind(c):
-    """(known, spec reply type) of the request as the drafts define it, from the request type and, for
-    SSH_FXP_EXTENDED, the extension name at the head of the body"""
-    return None
 
 
 def srv_ext_name(c):
@@ -1105,7 +1095,6 @@ def readexactly_stub(cx):
 
 
 readexactly_stub.modifies = ()
-from pyvc.engine import zt   # noqa: E402
 
 
 def one_frame(c):
@@ -1151,3 +1140,5 @@ ASSUMPTIONS += [
     'codec round trips (SFTPAttrs, SFTPName, SFTPVFSAttrs, SFTPLimits, SFTPRanges) are a bounded stand-in: every '
     'flag combination of each version is executed on the real code with boundary values, not proved for all values',
 ]
+# the harness cannot build a bare exception instance; the same code is cross-checked inlined in _process_packet
+sftp_error_encode.no_replay = True
